@@ -359,3 +359,37 @@ def shrink_case(case, still_fails, max_runs=120):
                             if not s['reaches']:
                                 break
     return cur, runs[0]
+
+
+PATH_SHAPES = ['abs', 'abs', 'rel-dir', 'dot', 'bare', 'dots-and-spaces']
+
+
+class shaped_path:
+    """context manager giving the path of file `name` inside directory `d` in one of the shapes a caller may use:
+    absolute, relative with a directory part, './x', a bare file name (the working directory is then `d`),
+    a directory and file name with dots and blanks"""
+
+    def __init__(self, d, name, shape):
+        self.d, self.name, self.shape = d, name, shape
+        self.cwd = None
+
+    def __enter__(self):
+        d, name, shape = self.d, self.name, self.shape
+        if shape == 'abs':
+            return os.path.join(d, name)
+        if shape == 'rel-dir':
+            return os.path.relpath(os.path.join(d, name))
+        if shape == 'dot':
+            return './' + os.path.relpath(os.path.join(d, name))
+        if shape == 'bare':
+            self.cwd = os.getcwd()
+            os.chdir(d)
+            return name
+        sub = os.path.join(d, 'my dir.v1')
+        os.makedirs(sub, exist_ok=True)
+        return os.path.join(sub, 'file 1.v2.' + name)
+
+    def __exit__(self, *a):
+        if self.cwd is not None:
+            os.chdir(self.cwd)
+        return False
